@@ -199,6 +199,14 @@ class Recorder:
 REC = None
 
 
+def _top_handler(r):
+    """name of the innermost `_handle_*` of the request being dispatched (None outside any)"""
+    for h in reversed(r.handlers):
+        if h["req"] == len(r.reqs):
+            return h["name"]
+    return None
+
+
 def exc_name(t):
     m = getattr(t, "__module__", "builtins")
     n = getattr(t, "__name__", "?")
@@ -244,15 +252,14 @@ def install():
     # ---- builtins shadowed in protocol's namespace
     def p_hasattr(obj, name):
         r = active()
-        who = caller_name()
-        if r is None or who not in ("_check_attr", "_handle_instancecheck", "_handle_inspect"):
+        if r is None:
             return real_hasattr(obj, name)
-        if who == "_check_attr":
-            r.touch("probe", obj, name)
-        else:
-            if not r.pv(obj).startswith("o"):
-                return real_hasattr(obj, name)
+        if r.check_depth > 0:
+            r.touch("probe", obj, name)                       # `_check_attr` (or a helper of it) asks
+        elif name == "____conn__" and _top_handler(r) in ("_handle_instancecheck", "_handle_inspect") and r.pv(obj).startswith("o"):
             r.touch("probeconn", obj)
+        else:
+            return real_hasattr(obj, name)
         try:
             res = real_hasattr(obj, name)
         except BaseException as ex:
@@ -260,6 +267,8 @@ def install():
             raise
         r.done(res)
         return res
+
+    OPS = {"_rpyc_getattr": "get", "_rpyc_setattr": "set", "_rpyc_delattr": "del"}
 
     class HookSpy:
         """stands for `type(obj)._rpyc_<op>attr` while `_access_attr` holds it"""
@@ -314,16 +323,15 @@ def install():
     def maybe_spy(r, res):
         return CallSpy(res) if outer_handler(r) is not None else res
 
-    OPS = {"_rpyc_getattr": "get", "_rpyc_setattr": "set", "_rpyc_delattr": "del"}
-
     def p_getattr(obj, name, *default):
         r = active()
-        who = caller_name()
-        if r is None or who != "_access_attr":
+        if r is None or not r.access_ctx or r.check_depth > 0:
             return real_getattr(obj, name, *default)
         if default:
-            # `getattr(type(obj), overrider, None)`
-            subj = sys._getframe(1).f_locals.get("obj")
+            if name not in OPS or default[0] is not None:
+                return real_getattr(obj, name, *default)
+            # `getattr(type(obj), overrider, None)`: the subject is the object `_access_attr` was called with
+            subj = r.access_ctx[-1]
             r.touch("hooklookup", subj, name)
             try:
                 res = real_getattr(obj, name, *default)
@@ -343,7 +351,7 @@ def install():
 
     def p_setattr(obj, name, value):
         r = active()
-        if r is None or caller_name() != "_access_attr":
+        if r is None or not r.access_ctx:
             return real_setattr(obj, name, value)
         r.touch("attr.set", obj, name, (value,))
         try:
@@ -356,7 +364,7 @@ def install():
 
     def p_delattr(obj, name):
         r = active()
-        if r is None or caller_name() != "_access_attr":
+        if r is None or not r.access_ctx:
             return real_delattr(obj, name)
         r.touch("attr.del", obj, name)
         try:
@@ -370,7 +378,7 @@ def install():
     def simple(kind, fn, callers):
         def w(obj, *rest):
             r = active()
-            if r is None or caller_name() not in callers:
+            if r is None or _top_handler(r) not in callers:
                 return fn(obj, *rest)
             r.touch(kind, obj, "", rest)
             try:
@@ -384,7 +392,7 @@ def install():
 
     def p_dir(obj):
         r = active()
-        if r is None or caller_name() != "_handle_dir":
+        if r is None or _top_handler(r) != "_handle_dir":
             return dir(obj)
         r.touch("dir", obj)
         try:
@@ -397,7 +405,8 @@ def install():
 
     def p_isinstance(inst, cls):
         r = active()
-        if r is None or caller_name() != "_handle_instancecheck":
+        if r is None or _top_handler(r) != "_handle_instancecheck" or cls is netref.BaseNetref \
+                or not real_isinstance(inst, netref.BaseNetref):
             return real_isinstance(inst, cls)
         from rpyc.core import brine
         idp = object.__getattribute__(inst, "____id_pack__")
@@ -416,7 +425,7 @@ def install():
 
     def p_get_id_pack(obj):
         r = active()
-        if r is None or caller_name() not in ("_box", "_handle_del"):
+        if r is None:
             return orig_idpack(obj)
         r.touch("idpack", obj)
         try:
@@ -436,7 +445,7 @@ def install():
     def p_get_methods(attrs, obj):
         global IN_INSPECT
         r = active()
-        if r is None or caller_name() != "_handle_inspect":
+        if r is None or _top_handler(r) != "_handle_inspect":
             return orig_methods(attrs, obj)
         r.touch("inspect", obj)
         IN_INSPECT += 1
@@ -459,7 +468,7 @@ def install():
         @staticmethod
         def islice(obj, *rest):
             r = active()
-            if r is None or caller_name() != "_handle_buffiter":
+            if r is None or _top_handler(r) != "_handle_buffiter":
                 return _itertools.islice(obj, *rest)
             r.touch("islice", obj, "", rest)
             try:
@@ -516,7 +525,7 @@ def install():
 
     def n_class_factory(id_pack, methods):
         r = active()
-        if r is None or caller_name() != "_netref_factory":
+        if r is None:
             return orig_factory(id_pack, methods)
         st = r.factory_state = dict(raised=None)
         try:
@@ -538,7 +547,7 @@ def install():
         def get(self, k, *d):
             r = active()
             res = sys.modules.get(k, *d)
-            if r is not None and caller_name() == "class_factory":
+            if r is not None and r.factory_state is not None:
                 r.touch("modlookup", k)
                 r.done(res)
             return res
@@ -561,7 +570,7 @@ def install():
 
     def n_getattr(obj, name, *default):
         r = active()
-        if r is None or caller_name() != "class_factory":
+        if r is None or r.factory_state is None or not default or default[0] is not None or type(obj) is not types.ModuleType:
             return real_getattr(obj, name, *default)
         r.touch("modgetattr", obj, "", (name,))
         try:
@@ -581,7 +590,7 @@ def install():
     def v_import(name, *rest):
         IMPORT_LOG.append(name if type(name) is str else repr(name))
         r = active()
-        if r is None or caller_name() != "load":
+        if r is None or r.load_state is None:
             return orig_import(name, *rest)
         r.touch("import", name)
         try:
@@ -599,7 +608,7 @@ def install():
         def __contains__(self, k):
             r = active()
             res = k in sys.modules
-            if r is not None and caller_name() == "load":
+            if r is not None and r.load_state is not None:
                 r.touch("modpresent", k)
                 r.done(res)
             return res
@@ -616,7 +625,7 @@ def install():
 
     def v_getattr(obj, name, *default):
         r = active()
-        if r is None or caller_name() != "load" or not default or default[0] is not None:
+        if r is None or r.load_state is None or not default or default[0] is not None or type(obj) is not types.ModuleType:
             return real_getattr(obj, name, *default)
         st = r.load_state
         if st is not None and st.get("cls_seen"):
@@ -717,8 +726,14 @@ def install():
         r = active(self)
         if r is None:
             return orig_unbox(self, package, *more)
-        top = caller_name() == "_dispatch_request"
-        res = orig_unbox(self, package, *more)
+        top = r.unbox_depth == 0 and bool(r.reqs) and not r.reqs[-1].get("unboxed")
+        if top:
+            r.reqs[-1]["unboxed"] = True       # the first `_unbox` of a request is the one of its argument package
+        r.unbox_depth += 1
+        try:
+            res = orig_unbox(self, package, *more)
+        finally:
+            r.unbox_depth -= 1
         if top and r.reqs:
             from rpyc.core import brine
             if not brine.dumpable(res) and type(res) is not tuple:
@@ -804,18 +819,17 @@ def install():
     def c_async_request(self, handler, args=(), callback=(lambda a, b: None)):
         r = active(self)
         if r is not None:
-            f = sys._getframe(1)
-            while f is not None and f.f_code.co_name in ("async_request", "sync_request"):
-                f = f.f_back
-            who = f.f_code.co_name if f is not None else "?"
-            g, depth = f, 0
+            g, depth = sys._getframe(1), 0
             while g is not None and depth < 40:
                 if g.f_code.co_name in ("_box_exc", "format_exception"):
                     # Python 3.12 computes "did you mean" suggestions while formatting an AttributeError's traceback:
                     # `dir(obj)` of a proxy asks the peer, from inside vinegar.dump (C09's ground, not modelled here)
                     raise Unobservable("callback to the peer while an exception's traceback is being formatted")
                 g, depth = g.f_back, depth + 1
-            if who not in ("_netref_factory", "_handle_instancecheck", "_handle_inspect", "close"):
+            from rpyc.core import consts
+            # HANDLE_INSPECT and HANDLE_CLOSE are what the protocol itself asks (class of a new proxy, chained
+            # instancecheck, close()); everything else is a callee using a proxy
+            if handler not in (consts.HANDLE_INSPECT, consts.HANDLE_CLOSE):
                 r.callback(handler, args)
         return orig_async(self, handler, args, callback)
     Conn._async_request = c_async_request
@@ -1034,3 +1048,6 @@ Recorder.splat_failed = _splat_failed
 Recorder.note_remote_names = _note_remote_names
 Recorder.load_state = None
 Recorder.factory_state = None
+Recorder.access_ctx = ()      # stack of (obj,) of the `_access_attr` calls in progress
+Recorder.check_depth = 0     # `_check_attr` calls in progress
+Recorder.unbox_depth = 0
